@@ -3,7 +3,33 @@ C14 — array, module-info and symbol-version tables round-trip.
 
 Statements use: the models (Model/Array.lean, Model/Modinfo.lean, Model/Versym.lean — built from the
 generated sites of Gen/SitesC14.lean), the reference semantics Spec/Tables.lean, C07's section
-invariant (`SecBuf.Inv`, `content`) and explicit, decidable size bounds.
+invariant (`SecBuf.Inv`, `content`: every section that was created, edited, loaded eagerly or
+loaded lazily) and explicit, decidable size bounds (`Bound`: < 4 GiB in ELF32, < 2 EiB in ELF64).
+
+Proved for all sequences / inputs:
+* arrays, both entry widths, all 4 configurations: `array_add`, `array_adds` (content = old content ++
+  table in declared order), `array_get` (k-th entry truncated to the width; `false` for every 64-bit
+  index beyond the end; never leaves the buffer), `array_roundtrip`, `array_bytes`, `array_get_reloaded`.
+* modinfo: `modinfo_add`, `modinfo_adds`, `modinfo_parse` (the constructor's parser inverts the
+  encoding for fields without `=`/NUL and values without NUL, reading only inside the section),
+  `modinfo_roundtrip`, `modinfo_by_name` (= `Spec.lookupFirst`), `modinfo_parse_reloaded`;
+  `modinfo_no_eq_quirk` records the `npos+1` behaviour for records without `=` (outside the property).
+* versym table: `versym_add`, `versym_adds`, `versym_get`, `versym_roundtrip`, `versym_get_reloaded`
+  hold in all configurations (the accessor is symmetric).  The property's byte-order clause is
+  FALSE on the tree (finding F4, open): `VersymBytesDeclaredOrder` is stated, refuted by
+  `versym_order_witness` / `versym_bytes_declared_order_false`, `versym_read_witness` shows the
+  read side, and `versym_bytes_partial` proves the clause for exactly the complement of the trigger
+  (declared order = host order, `needConv e = false`).
+* verneed / verdef (after fixes/05): `verneed_get_eq_spec`, `verdef_get_eq_spec` — whenever the
+  GNU-ABI reference reader of Spec/Tables.lean succeeds, `get_entry` reports the same values without
+  a fault, in either byte order; `*_get_absent` for indices ≥ the cached count.
+
+Not proved here (correspondence + oracle only): that `save` writes `content` and `load` reads it back
+(the `*_reloaded` theorems start from `SecBuf.loadedEager/loadedLazy`); that the cached count of the
+verneed/verdef accessors is DT_VERNEEDNUM/DT_VERDEFNUM (dynamic accessor, C12); `strLookup` is a local
+model of `string_section_accessor::get_string` (C08).  Only the *first* auxiliary record of each
+requirement/definition is reported by the API; the others are not observable.
+Behaviour on malformed chains (offsets outside the section) is C18's business: the model faults there.
 -/
 import ElfioVerif.Lemmas.Tables
 namespace ElfioVerif
@@ -500,6 +526,114 @@ theorem modinfo_no_eq_quirk : Modinfo.splitRecord [97, 98] = ([97, 98], [97, 98]
 
 example : Spec.AttrOk ([108, 105], [71, 61, 80]) := by
   constructor <;> intro c hc <;> simp at hc <;> rcases hc with rfl | rfl | rfl <;> decide
+
+/-! ## version requirements and definitions (`.gnu.version_r`, `.gnu.version_d`) -/
+
+/-- **verneed_get_eq_spec** : on every image on which the GNU-ABI reference reader succeeds for
+    entry `no` (follow `vn_next` `no` times from the section start, decode the record and its first
+    auxiliary record, resolve both names in the linked string table — Spec/Tables.lean), in either
+    byte order, `get_entry(no, …)` stays inside the section and reports exactly those values.
+    (`num` = DT_VERNEEDNUM as cached by the constructor.) -/
+theorem verneed_get_eq_spec (e : Enc) (b s : SecBuf) (hI : b.Inv) (hS : s.Inv) (num no : BitVec 32)
+    (hno : no.toNat < num.toNat) (v : Spec.NeedView)
+    (hv : Spec.needView e b.content s.content no.toNat = some v) :
+    Verneed.getEntry e b (some s) num no =
+      .ok (some { version := BitVec.ofNat 16 v.version, file := v.file, hash := BitVec.ofNat 32 v.hash,
+                  flags := BitVec.ofNat 16 v.flags, other := BitVec.ofNat 16 v.other, name := v.name }) := by
+  simp only [Spec.needView, bind, Option.bind_eq_some_iff, pure, Option.some.injEq] at hv
+  obtain ⟨off, hoff, r, hr, a, ha, file, hfile, name, hname, rfl⟩ := hv
+  obtain ⟨r0, hr0⟩ := verneedOff_start hoff hr
+  have hg : vr_guard true no num = false := by
+    simp only [vr_guard, Bool.not_true, Bool.false_or, BitVec.ule, decide_eq_false_iff_not]; omega
+  obtain ⟨_, _, haux0, _⟩ := decodeVerneed_fields hr0
+  obtain ⟨hver, hfidx, _, _⟩ := decodeVerneed_fields hr
+  obtain ⟨hhash, hflags, hother, hnidx⟩ := decodeVernaux_fields ha
+  obtain ⟨ax, hax, haxv⟩ := rd32_spec hI e "verneed/vn_aux" (0 + 8) r0.aux haux0
+  have hloop := verneed_loop_spec hI e no off r hr no.toNat 0 0 r0 (no.toNat + 1) hr0 hoff (by simp) (by omega)
+  obtain ⟨x1, hx1, hx1v⟩ := rd16_spec hI e "verneed/vn_version" off r.version hver
+  obtain ⟨x2, hx2, hx2v⟩ := rd32_spec hI e "verneed/vn_file" (off + 4) r.file hfidx
+  obtain ⟨x3, hx3, hx3v⟩ := rd32_spec hI e "verneed/vna_hash" (off + r.aux) a.hash hhash
+  obtain ⟨x4, hx4, hx4v⟩ := rd16_spec hI e "verneed/vna_flags" (off + r.aux + 4) a.flags hflags
+  obtain ⟨x5, hx5, hx5v⟩ := rd16_spec hI e "verneed/vna_other" (off + r.aux + 6) a.other hother
+  obtain ⟨x6, hx6, hx6v⟩ := rd32_spec hI e "verneed/vna_name" (off + r.aux + 8) a.name hnidx
+  have hs1 : strAssign "verneed/file_name" (some s) (vr_file_idx (cv32 e) x2) = .ok file := by
+    simp only [strAssign, strLookup_eq hS, vr_file_idx, hx2v, hfile, pure, Except.pure]
+  have hs2 : strAssign "verneed/dep_name" (some s) (vr_name_idx (cv32 e) x6) = .ok name := by
+    simp only [strAssign, strLookup_eq hS, vr_name_idx, hx6v, hname, pure, Except.pure]
+  have o1 : Elfxx_Verneed.vn_aux_off = 8 := rfl
+  have o2 : Elfxx_Verneed.vn_version_off = 0 := rfl
+  have o3 : Elfxx_Verneed.vn_file_off = 4 := rfl
+  have o4 : Elfxx_Vernaux.vna_hash_off = 0 := rfl
+  have o5 : Elfxx_Vernaux.vna_flags_off = 4 := rfl
+  have o6 : Elfxx_Vernaux.vna_other_off = 6 := rfl
+  have o7 : Elfxx_Vernaux.vna_name_off = 8 := rfl
+  simp only [Nat.zero_add] at hax hloop
+  simp only [Verneed.getEntry, hg, Bool.false_eq_true, if_false, o1, o2, o3, o4, o5, o6, o7, hax, vr_aux_off0,
+    cv32_off, haxv, hloop, Nat.add_zero, hx1, hx2, hs1, hx3, hx4, hx5, hx6, hs2, bind, Except.bind, pure,
+    Except.pure, vr_version, vr_hash, vr_flags, vr_other]
+  rw [eq_ofNat_of_toNat _ _ hx1v, eq_ofNat_of_toNat _ _ hx3v, eq_ofNat_of_toNat _ _ hx4v,
+    eq_ofNat_of_toNat _ _ hx5v]
+
+
+
+theorem verneed_get_absent (e : Enc) (b : SecBuf) (str : Option SecBuf) (num no : BitVec 32)
+    (h : num.toNat ≤ no.toNat) : Verneed.getEntry e b str num no = .ok none := by
+  have hg : vr_guard true no num = true := by
+    simp only [vr_guard, Bool.not_true, Bool.false_or, BitVec.ule, decide_eq_true_eq]; exact h
+  simp [Verneed.getEntry, hg, pure, Except.pure]
+
+/-- **verdef_get_eq_spec** : the same for version definitions (`vd_next` chain, first `Verdaux`). -/
+theorem verdef_get_eq_spec (e : Enc) (b s : SecBuf) (hI : b.Inv) (hS : s.Inv) (num no : BitVec 32)
+    (hno : no.toNat < num.toNat) (v : Spec.DefView)
+    (hv : Spec.defView e b.content s.content no.toNat = some v) :
+    Verdef.getEntry e b (some s) num no =
+      .ok (some { flags := BitVec.ofNat 16 v.flags, ndx := BitVec.ofNat 16 v.ndx,
+                  hash := BitVec.ofNat 32 v.hash, name := v.name }) := by
+  simp only [Spec.defView, bind, Option.bind_eq_some_iff, pure, Option.some.injEq] at hv
+  obtain ⟨off, hoff, r, hr, a, ha, name, hname, rfl⟩ := hv
+  obtain ⟨r0, hr0⟩ := verdefOff_start hoff hr
+  have hg : vd_guard true no num = false := by
+    simp only [vd_guard, Bool.not_true, Bool.false_or, BitVec.ule, decide_eq_false_iff_not]; omega
+  obtain ⟨_, _, _, haux0, _⟩ := decodeVerdef_fields hr0
+  obtain ⟨hflags, hndx, hhash, _, _⟩ := decodeVerdef_fields hr
+  have hnidx := decodeVerdaux_fields ha
+  obtain ⟨ax, hax, haxv⟩ := rd32_spec hI e "verdef/vd_aux" (0 + 12) r0.aux haux0
+  have hloop := verdef_loop_spec hI e no off r hr no.toNat 0 0 r0 (no.toNat + 1) hr0 hoff (by simp) (by omega)
+  obtain ⟨x1, hx1, hx1v⟩ := rd16_spec hI e "verdef/vd_flags" (off + 2) r.flags hflags
+  obtain ⟨x2, hx2, hx2v⟩ := rd16_spec hI e "verdef/vd_ndx" (off + 4) r.ndx hndx
+  obtain ⟨x3, hx3, hx3v⟩ := rd32_spec hI e "verdef/vd_hash" (off + 8) r.hash hhash
+  obtain ⟨x4, hx4, hx4v⟩ := rd32_spec hI e "verdef/vda_name" (off + r.aux) a.name hnidx
+  have hs1 : strAssign "verdef/dep_name" (some s) (vd_name_idx (cv32 e) x4) = .ok name := by
+    simp only [strAssign, strLookup_eq hS, vd_name_idx, hx4v, hname, pure, Except.pure]
+  have o1 : Elfxx_Verdef.vd_aux_off = 12 := rfl
+  have o2 : Elfxx_Verdef.vd_flags_off = 2 := rfl
+  have o3 : Elfxx_Verdef.vd_ndx_off = 4 := rfl
+  have o4 : Elfxx_Verdef.vd_hash_off = 8 := rfl
+  have o5 : Elfxx_Verdaux.vda_name_off = 0 := rfl
+  simp only [Nat.zero_add] at hax hloop
+  simp only [Verdef.getEntry, hg, Bool.false_eq_true, if_false, o1, o2, o3, o4, o5, hax, vd_aux_off0,
+    cv32_off, haxv, hloop, Nat.add_zero, hx1, hx2, hx3, hx4, hs1, bind, Except.bind, pure,
+    Except.pure, vd_flags, vd_ndx, vd_hash]
+  rw [eq_ofNat_of_toNat _ _ hx1v, eq_ofNat_of_toNat _ _ hx2v, eq_ofNat_of_toNat _ _ hx3v]
+
+
+theorem verdef_get_absent (e : Enc) (b : SecBuf) (str : Option SecBuf) (num no : BitVec 32)
+    (h : num.toNat ≤ no.toNat) : Verdef.getEntry e b str num no = .ok none := by
+  have hg : vd_guard true no num = true := by
+    simp only [vd_guard, Bool.not_true, Bool.false_or, BitVec.ule, decide_eq_true_eq]; exact h
+  simp [Verdef.getEntry, hg, pure, Except.pure]
+
+/-! non-vacuity: a big-endian two-entry requirement chain (3 auxiliary records) and a two-entry
+    definition chain built by the independent Python encoder decode under the reference reader -/
+def exNeed : Bytes := [0, 1, 0, 2, 0, 0, 0, 1, 0, 0, 0, 16, 0, 0, 0, 48, 13, 105, 105, 16, 0, 0, 0, 2, 0, 0, 0, 11, 0, 0, 0, 16, 9, 105, 31, 115, 0, 0, 0, 3, 0, 0, 0, 21, 0, 0, 0, 0, 0, 1, 0, 1, 0, 0, 0, 33, 0, 0, 0, 16, 0, 0, 0, 0, 13, 105, 105, 17, 0, 2, 0, 4, 0, 0, 0, 43, 0, 0, 0, 0]
+def exNeedStr : Bytes := [0, 108, 105, 98, 99, 46, 115, 111, 46, 54, 0, 71, 76, 73, 66, 67, 95, 50, 46, 48, 0, 71, 76, 73, 66, 67, 95, 50, 46, 49, 46, 51, 0, 108, 105, 98, 109, 46, 115, 111, 46, 54, 0, 71, 76, 73, 66, 67, 95, 50, 46, 49, 0]
+example : Spec.needView .msb exNeed exNeedStr 1 =
+    some { version := 1, file := [108, 105, 98, 109, 46, 115, 111, 46, 54], hash := 0x0d696911, flags := 2,
+           other := 4, name := [71, 76, 73, 66, 67, 95, 50, 46, 49] } := by decide
+def exDef : Bytes := [0, 1, 0, 1, 0, 1, 0, 1, 14, 9, 168, 207, 0, 0, 0, 20, 0, 0, 0, 28, 0, 0, 0, 1, 0, 0, 0, 0, 0, 1, 0, 0, 0, 2, 0, 2, 1, 21, 112, 176, 0, 0, 0, 20, 0, 0, 0, 0, 0, 0, 0, 9, 0, 0, 0, 8, 0, 0, 0, 1, 0, 0, 0, 0]
+def exDefStr : Bytes := [0, 108, 105, 98, 120, 46, 115, 111, 0, 72, 69, 76, 76, 79, 95, 49, 46, 48, 0]
+example : Spec.defView .msb exDef exDefStr 1 =
+    some { flags := 0, ndx := 2, hash := 0x011570b0, name := [72, 69, 76, 76, 79, 95, 49, 46, 48] } := by decide
 
 /-! non-vacuity -/
 example : Bound .c32 (Arr.W.w8.bytes * [1#64, 2#64, 0xffffffffffffffff#64].length) := by
